@@ -191,7 +191,11 @@ def run_one(ctx, rng, fn, kind, impl, mode, ml, mi, calls, cuts, order, seed):
                 committed_ref = dict(ref.d)
                 if chain != wantitems or descent != wantitems or inv:
                     break     # the store is damaged from here on
+                if not f33 and (i * 7 + seed) % 3 == 0:     # (after an F33 commit a reloaded root would be its stale inline copy)
+                    jar.minimize()      # the cache drops every (now unchanged) object: the writer goes on with ghosts
             elif cut == "abort":
+                if f33:
+                    break      # the root's record is its stale inline copy (F33): what an abort reloads is not the committed tree
                 jar.abort()
                 ref.d = dict(committed_ref)
                 try:
